@@ -454,6 +454,13 @@ func init() {
 		m := Match{Target: Var{q}, Arms: []Arm{{"Some", "w", B(Var{"w"})}, {"None", "", g.blk(t, env, f[2])}}}
 		return &Block{Stmts: []Stmt{LetDestr{[]string{"_", q}, rhs}}, Final: m}
 	}})
+	// destructuring of an UN-ANNOTATED parameter whose components have different types
+	add(prod{name: "destr-unannotated-param", app: is("int"), mk: func(g *Gen, t Type, env Env2, fuel, pos int) Expr {
+		f := g.split(fuel-1, 2)
+		lam := Lambda{[]Param{{Name: "p"}}, &Block{Stmts: []Stmt{LetDestr{[]string{"da", "db"}, Var{"p"}}},
+			Final: BinOp{"+", Var{"da"}, call("strings.Length", Var{"db"})}}}
+		return call("slice.Head", call("slice.Map", lam, SliceLit{[]Expr{Tuple{[]Expr{g.Gen("int", env, f[0], PosExpr), g.Gen("string", env, f[1], PosExpr)}}}}))
+	}})
 	// 11 string match
 	add(prod{name: "match-string-var", rep: true, app: any_, mk: func(g *Gen, t Type, env Env2, fuel, pos int) Expr {
 		f := g.split(fuel-1, 3)
